@@ -259,11 +259,22 @@ Proof.
   - rewrite (Hlast ts ltac:(lia)). lia.
 Qed.
 
-(* with no tolerance at all, the TICK judgement is exactly "the return instant is that tick" *)
+(* with no tolerance at all, the TICK judgement is exactly "not before the timeout has passed since
+   the latest refresh, not after the noticing tick of the grid" *)
 Lemma tick_conforms_exact T start last ret :
   0 < period T ->
-  tick_conforms T 0 0 start last ret = true <-> ret = ideal_tick (period T) start (last + T).
+  tick_conforms T 0 0 start last ret = true <->
+  last + T <= ret <= ideal_tick (period T) start (last + T).
 Proof.
   intro HP. unfold tick_conforms. cbv zeta.
-  rewrite !Z.sub_0_r, !Z.add_0_r. rewrite !andb_true_iff, Z.ltb_lt, !Z.leb_le. split; [intros [[_ A] B]; lia|intros ->; lia].
+  rewrite !Z.sub_0_r, !Z.add_0_r. rewrite !andb_true_iff, Z.ltb_lt, !Z.leb_le. split; [intros [[_ A] B]; lia|intros [A B]; lia].
+Qed.
+
+(* the tick of an exact grid that notices satisfies the judgement: the grid instant itself lies in the
+   accepted interval whenever it is not before the timeout *)
+Lemma ideal_tick_ge P start x : 0 < P -> x <= ideal_tick P start x.
+Proof.
+  intro HP. unfold ideal_tick. destruct (Z.leb_spec x start); [lia|].
+  pose proof (Z.div_mod (x - start + P - 1) P ltac:(lia)) as D.
+  pose proof (Z.mod_pos_bound (x - start + P - 1) P HP) as B. nia.
 Qed.
